@@ -58,6 +58,10 @@ fn data(d: &im::Data) -> String {
     format!("{}/{}/{}/{}/{}", n, m, show_valid(&d.validity), cols_sum(&pre), cols_sum(&post))
 }
 
+/// the summary line with the hash field blanked (to compare reads made with and without `compute_hash`)
+pub fn strip_hash(s: &str) -> String {
+    match s.find(" hashed=") { None => s.to_string(), Some(i) => { let rest = &s[i + 8..]; let end = rest.find(' ').map_or(rest.len(), |j| j); format!("{} hashed=none{}", &s[..i], &rest[end..]) } }
+}
 pub fn summary(g: &peppi::game::immutable::Game) -> String {
     let fr = &g.frames; let v = g.start.slippi.version;
     let ports: Vec<String> = fr.ports.iter().map(|p| format!("P{}:{}{}", p.port as u8, data(&p.leader), p.follower.as_ref().map_or(String::new(), |f| format!("+F:{}", data(f))))).collect();
@@ -72,7 +76,7 @@ pub fn summary(g: &peppi::game::immutable::Game) -> String {
         lean_opt(start.map(|s| s.0)), lean_opt(start.map(|s| s.1)), lean_opt(end.map(|s| s.0)), lean_opt(end.map(|s| s.1)),
         lean_opt(off), lean_opt(item.map(|s| s.0)), lean_opt(item.map(|s| s.1)),
         lean_opt(g.gecko_codes.as_ref().map(|c| format!("({}, {})", c.actual_size, c.bytes.len()))), lean_opt(g.quirks.map(|q| q.double_game_end)),
-        g.end.is_some(), g.metadata.is_some(), "none")
+        g.end.is_some(), g.metadata.is_some(), g.hash.as_deref().unwrap_or("none"))
 }
 
 // ---- row view (transpose::*) dumped by hand, same value order as the column dumps above ----
